@@ -1,7 +1,7 @@
-From Coq Require Import List NArith ZArith Bool.
+From Coq Require Import List NArith ZArith Bool Permutation.
 Import ListNotations.
 Require Import MV.Common.Interleave MV.C16.Model MV.C16.Spec MV.C16.Conc MV.C16.ExecGen MV.C16.Retention
-               MV.C16.Proofs MV.C16.ProofsDrain MV.C16.ProofsUniform MV.C16.ProofsConc MV.C16.ProofsConc2 MV.C16.ExecProofs.
+               MV.C16.Proofs MV.C16.ProofsDrain MV.C16.ProofsUniform MV.C16.ProofsConc MV.C16.ProofsConc2 MV.C16.ProofsConc3 MV.C16.ExecProofs.
 Open Scope N_scope.
 Require Import MV.C16.Properties.
 
@@ -68,7 +68,7 @@ Check (C16_uniform_retention_refuted_before_fix : exists cap m i,
 Print Assumptions C16_uniform_retention_refuted_before_fix.
 Check (C16_total_refuted_before_fix : exists cap h, In (MPush (PPanic 0)) (snd (run false (new cap) h))).
 Print Assumptions C16_total_refuted_before_fix.
-Check (C16_concurrent_accounting_except_late_push_partial : forall cap ps sched,
+Check (C16_drains_well_formed_every_schedule : forall cap ps sched,
   let c := fst (exec step site (init_config cap ps) sched) in
   forall t l x, nth_error (snd c) t = Some l -> In x (results l) ->
     match x with
@@ -76,7 +76,40 @@ Check (C16_concurrent_accounting_except_late_push_partial : forall cap ps sched,
     | MPush p => forall u, p <> PPanic u
     | MEmpty _ => True
     end).
-Print Assumptions C16_concurrent_accounting_except_late_push_partial.
+Print Assumptions C16_drains_well_formed_every_schedule.
+Check (C16_count_is_ledger_length_every_schedule : forall cap ps sched sd,
+  let c := fst (exec step site (init_config cap ps) sched) in
+  count (res (side (fst c) sd)) = N.of_nat (length (led (side (fst c) sd)))).
+Print Assumptions C16_count_is_ledger_length_every_schedule.
+Check (C16_returned_drains_are_logged : forall cap ps sched,
+  let c := fst (exec step site (init_config cap ps) sched) in
+  forall u x d, nth_error (snd c) u = Some x -> In (MConsume d) (results x) ->
+                exists W St, In (d, W, St) (glog (fst c))).
+Print Assumptions C16_returned_drains_are_logged.
+Check (C16_concurrent_accounting_except_late_push : forall cap ps sched,
+  let c := fst (exec step site (init_config cap ps) sched) in
+  late (fst c) = false ->
+  forall d W St, In (d, W, St) (glog (fst c)) ->
+    Permutation St W /\
+    d_unsampled d = N.of_nat (length St) /\
+    d_len d = N.min (d_unsampled d) (N.of_nat cap) /\
+    N.of_nat (length (d_vals d)) <= d_len d /\
+    (forall v, In v (d_vals d) -> In v St) /\
+    (d_unsampled d <= N.of_nat cap -> d_vals d = firstn (length (d_vals d)) W) /\
+    sample_rate d = (if d_unsampled d <=? N.of_nat cap then (1, 1) else (N.of_nat cap, d_unsampled d))).
+Print Assumptions C16_concurrent_accounting_except_late_push.
+Check (C16_concurrent_accounting_outside_known_class : forall cap progs sched,
+  known_class (CThr cap progs sched) = None ->
+  let c := fst (exec_full step site rr_fuel (init_config (N.to_nat cap) progs) (map N.to_nat sched)) in
+  forall d W St, In (d, W, St) (glog (fst c)) ->
+    Permutation St W /\
+    d_unsampled d = N.of_nat (length St) /\
+    d_len d = N.min (d_unsampled d) cap /\
+    N.of_nat (length (d_vals d)) <= d_len d /\
+    (forall v, In v (d_vals d) -> In v St) /\
+    (d_unsampled d <= cap -> d_vals d = firstn (length (d_vals d)) W) /\
+    sample_rate d = (if d_unsampled d <=? cap then (1, 1) else (cap, d_unsampled d))).
+Print Assumptions C16_concurrent_accounting_outside_known_class.
 Check (C16_consumers_exclusive_and_side_stable : forall cap ps sched,
   let c := fst (exec step site (init_config cap ps) sched) in
   (forall t u l l', nth_error (snd c) t = Some l -> nth_error (snd c) u = Some l' ->
